@@ -11,6 +11,10 @@ Chk(ok, c) == IF ok THEN {} ELSE Fl(c)
 SameFS(X, Y) == X.paths = Y.paths /\ X.atoms = Y.atoms /\ X.same = Y.same
 
 JBuild(e) == LET n == Norm(Fs(e.spec)) p == Fs(e.F) IN Chk(SameFS(n, p), "Build.state")
+(* the same structure written in the text syntax of FeatureStructure.from_text (co-indexing tags "(n)" for the shared
+   nodes, the content at the first occurrence of a tag): parsing must give the structure the history describes *)
+JFromText(e) == IF Has(e, "exc") THEN Fl("from_text.noexc")
+                ELSE Chk(SameFS(Norm(Fs(e.spec)), Fs(e.F)), "from_text.state")
 (* e.res = "ok" | exception name; e.R = receiver after the call; e.res2/e.R2 = the call with the
    arguments swapped, on fresh copies *)
 JUnify(e) ==
@@ -73,6 +77,7 @@ JContains(e) ==
        \cup (IF Has(e, "cfgacc") THEN Chk(ToSet(e.cfgacc) = acc, "fcfg_contains.agrees_with_cfg") ELSE {})
 Judge(e) ==
   CASE e.op = "fs_build" -> JBuild(e)
+    [] e.op = "fs_from_text" -> JFromText(e)
     [] e.op = "unify" -> JUnify(e)
     [] e.op = "fcfg_contains" -> JContains(e)
     [] e.op = "fcfg_contains2" -> JContains2(e)
